@@ -50,6 +50,9 @@ CLAIMED = {
  "C18": ("dataflow classification of line / last-newline variables in the lexer with a pairing rule, structural sibling agreement of the token emitters, must-pass-through ordering of emit vs write-back",
          "Structural necessary conditions of true positions, decided on every block/path of the lexer: line and column base advance together; all emitters stamp Pos/Lline/Lpos with the same expressions; multi-line tokens are emitted before the advanced line is written back. "
          "One site violates the pairing rule today (the `#` comment branch; known finding, pinned by two tests). Byte-exact positions for all inputs are value dependent and not decided.", "3/C18"),
+ "C19": ("structural rules over SSA and the type-checked syntax: recover-covers-call, exhaustiveness/agreement of the reflect.Kind switches against the set of numeric kinds, typing of the generated registries, wrapping condition via dominating facts",
+         "Structural necessary conditions of a total bridge decided from source: every reflect.Value.Call sits under a deferred recover registered before any call and assigning the named error result; argument conversion covers the 12 non-float64 numeric kinds with the matching Go type, "
+         "result conversion covers all 13 with the accessor of the matching class; all generated registry entries implement ECALFunction; executeFunction wraps every non-runtime error. Converted values and the wrapped functions' behaviour are not decided.", "3/C19"),
 }
 
 NOT_YET = "check not built yet in this session (see DESIGN.md section 3 for the planned static rule)"
